@@ -13,6 +13,7 @@ import Mathlib.Tactic.NormNum
 import TapkeeVerif.Proofs.CertGenSound
 import TapkeeVerif.Proofs.LocallyLinearFlatExact
 import TapkeeVerif.Proofs.LocallyLinearFlatHlle
+import TapkeeVerif.Proofs.LocallyLinearFlatHlleExact
 import TapkeeVerif.Proofs.Inertia
 /-!
 C08 property theorems: the sparse matrices assembled by `routines/locally_linear.hpp`
@@ -918,6 +919,82 @@ theorem hlle_null_local_partial (nb : Fin N → Fin k → Fin N) (sqrtO : K → 
   rw [hlleM_eq_ok (hlle_index_ok d)] at hM
   cases hM
   exact hlle_null_local nb sqrtO thr U v hv
+
+/-- the constant vector is a null vector of the HLLE matrix — `hlle_const_null` with the contract `hgs` discharged by the
+    as-written sweep (no flatness needed) -/
+theorem hlle_const_null_of_sweep (nb : Fin N → Fin k → Fin N) (sqrtO : K → K) (thr : K) (U : Fin N → Mat k d K)
+    (hthr : 0 ≤ thr) (hE : ∀ i, GsExact sqrtO [] (hlleYi0 (U i))) :
+    ∀ M', hlleM nb sqrtO thr U = .ok M' → (Mat.toM M').mulVec (fun _ => 1) = 0 :=
+  hlle_const_null nb sqrtO thr U fun i => (hlle_gs_contract sqrtO thr (not_lt.2 hthr) (U i) (hE i)).2
+
+/-- **HLLE on flat data, the null space EXACTLY, at the minimum neighbourhood size `k = 1 + d + dp`** (the smallest `k`
+    the method accepts): `[1 | U_i | H_i]` is then a square matrix with (bi)orthogonal columns, so a vector orthogonal to `H_i`
+    is in `span{1, U_i}`; with general position, connected overlapping cover: null space = affine functions.
+    For `k > 1 + d + dp` the statement needs a genericity condition on the sample and is NOT proved (see the FULL STATEMENT
+    comment in §3b).  Non-vacuity: no instance over ℚ exists (the sweep normalises the constant column by `√k`, and
+    `k = 3, 6, 10, 15, 21, 28` are not squares — `GsExact` is unsatisfiable in ℚ for `d ≤ 6`); the hypotheses are jointly
+    satisfiable over ℝ (generic samples), which is not machine-checked here. -/
+theorem hlle_nullspace_exact_min_k (nb : Fin N → Fin k → Fin N) (sqrtO : K → K) (thr : K) (U : Fin N → Mat k d K)
+    (hkmin : k = (d + 1) + hlleDp d)
+    (A : Matrix (Fin D) (Fin d) K) (hA : ∀ v : Fin d → K, A *ᵥ v = 0 → v = 0) (b : Fin D → K)
+    (T : Fin N → Fin d → K) (hk : (k : K) ≠ 0) (lam : Fin N → Fin d → K)
+    (heig : ∀ i, Spectral.IsTopEig (Mat.toM (localCentered (flatKernel A b T) (nb i))) (Mat.toM (U i)) (lam i))
+    (hgp : ∀ i, AffSpan (nb i) T)
+    (hthr : 0 ≤ thr) (hE : ∀ i, GsExact sqrtO [] (hlleYi0 (U i)))
+    (hconn : ∀ i i', Relation.ReflTransGen (Overlap nb T) i i') (hcover : ∀ j, ∃ i a, nb i a = j)
+    (v : Fin N → K) :
+    ∀ M', hlleM nb sqrtO thr U = .ok M' → ((Mat.toM M').mulVec v = 0 ↔ IsAffine T v) := by
+  intro M' hM
+  constructor
+  · intro hv
+    have hM' := hM
+    rw [hlleM_eq_ok (hlle_index_ok d)] at hM'
+    cases hM'
+    exact affine_of_locally_affine nb T v
+      (hlle_null_locally_affine (fun _ _ => rfl) nb sqrtO thr U hkmin A hA b T hk lam heig hgp hthr hE v hv)
+      hconn hcover
+  · rintro ⟨c0, w, hw⟩
+    have : v = fun j => c0 + ∑ c, T j c * w c := funext hw
+    rw [this]
+    exact hlle_affine_in_nullspace nb sqrtO thr U A hA b T hk lam heig hthr hE c0 w M' hM
+
+/-- **The property's last sentence for HLLE at `k = 1 + d + dp`**: every column returned after skipping the first eigenvector
+    is an affine function of the intrinsic coordinates (and so is the skipped one; the eigenvalue `0` has multiplicity `d + 1`). -/
+theorem hlle_columns_affine_on_flat_min_k (nb : Fin N → Fin k → Fin N) (sqrtO : K → K) (thr : K)
+    (U : Fin N → Mat k d K) (hkmin : k = (d + 1) + hlleDp d)
+    (A : Matrix (Fin D) (Fin d) K) (hA : ∀ v : Fin d → K, A *ᵥ v = 0 → v = 0) (b : Fin D → K)
+    (T : Fin N → Fin d → K) (hk : (k : K) ≠ 0) (lam : Fin N → Fin d → K)
+    (heig : ∀ i, Spectral.IsTopEig (Mat.toM (localCentered (flatKernel A b T) (nb i))) (Mat.toM (U i)) (lam i))
+    (hgp : ∀ i, AffSpan (nb i) T)
+    (hthr : 0 ≤ thr) (hE : ∀ i, GsExact sqrtO [] (hlleYi0 (U i)))
+    (hconn : ∀ i i', Relation.ReflTransGen (Overlap nb T) i i') (hcover : ∀ j, ∃ i a, nb i a = j)
+    (M' : Mat N N K) (hM : hlleM nb sqrtO thr U = .ok M')
+    (V : Matrix (Fin N) (Fin N) K) (lam' : Fin N → K)
+    (hsys : SpectralLocal.GenEigSystem (Mat.toM M') 1 V lam') (hd : 1 + d ≤ N) :
+    (∀ j : Fin N, j.1 < d + 1 → lam' j = 0 ∧ IsAffine T (fun i => V i j)) ∧
+    ∀ c : Fin d, IsAffine T (fun i => SpectralLocal.cols V (SpectralLocal.shiftIdx 1 hd) i c) := by
+  have hk0 : 0 < k := by omega
+  have hge : ∀ j, 0 ≤ lam' j :=
+    psd_eigenvalues_ge _ V lam' hsys 0 fun x => by
+      rw [zero_mul]
+      exact hlle_psd nb sqrtO thr U x M' hM
+  have hF : ∀ w : Fin (d + 1) → K, Mat.toM M' *ᵥ (affBasis T *ᵥ w) = (0 : K) • (affBasis T *ᵥ w) := by
+    intro w
+    have h0 := hlle_affine_in_nullspace nb sqrtO thr U A hA b T hk lam heig hthr hE (w 0) (fun c => w c.succ) M' hM
+    have e : (fun j => w 0 + ∑ c, T j c * w c.succ) = affBasis T *ᵥ w := funext fun j => (affBasis_mulVec T w j).symm
+    rw [e] at h0
+    rw [h0, zero_smul]
+  have hinj := affBasis_injective (nb ⟨0, by omega⟩) T hk0 (hgp ⟨0, by omega⟩)
+  have hbot := bottom_eigs_of_null _ V lam' hsys 0 hge (affBasis T) hF hinj
+  have hall : ∀ j : Fin N, j.1 < d + 1 → lam' j = 0 ∧ IsAffine T (fun i => V i j) := by
+    intro j hj
+    refine ⟨hbot j hj, ?_⟩
+    apply (hlle_nullspace_exact_min_k nb sqrtO thr U hkmin A hA b T hk lam heig hgp hthr hE hconn hcover _ M' hM).1
+    have := SpectralLocal.eigen_equation_col hsys j
+    rw [hbot j hj, zero_smul] at this
+    exact this
+  refine ⟨hall, fun c => ?_⟩
+  exact (hall (SpectralLocal.shiftIdx 1 hd c) (by simp only [SpectralLocal.shiftIdx]; have := c.2; omega)).2
 
 end FlatHlle
 
